@@ -39,6 +39,8 @@ type nameEntry struct {
 	PhiLoop int    `json:"pl,omitempty"`
 	PhiIdx  int    `json:"pi,omitempty"`
 	PhiOf   int    `json:"pn,omitempty"` // number of phis of that type at that header
+	PhiAllIdx int  `json:"pai,omitempty"` // position among all named phis of the header (type-blind fallback)
+	PhiAllOf  int  `json:"pan,omitempty"`
 }
 
 const baselineNamesFile = "/verif/baseline_names.json"
@@ -264,6 +266,20 @@ func computeAlias(baseAll, curAll []nameEntry) map[string]string {
 			}
 		}
 	}
+	// type-blind fallback for loop-carried variables (a counter narrowed or widened): same loop, same position among
+	// all named phis of the header, same number of them
+	for _, e := range bphi {
+		if inCur[e.Name] || al[e.Name] != "" || e.PhiAllOf == 0 {
+			continue
+		}
+		for _, c := range cphi {
+			if c.PhiIn == e.PhiIn && c.PhiLoop == e.PhiLoop && c.PhiAllIdx == e.PhiAllIdx && c.PhiAllOf == e.PhiAllOf && !inBase[c.Name] && !used[c.Name] {
+				al[e.Name] = c.Name
+				used[c.Name] = true
+				break
+			}
+		}
+	}
 	for i, e := range base {
 		if inCur[e.Name] || al[e.Name] != "" {
 			continue
@@ -319,6 +335,9 @@ func renameContract(c *Contract, al map[string]string) {
 	}
 	for _, cls := range c.Steps {
 		do(cls)
+	}
+	for _, cl := range c.Decreases {
+		do([]*Clause{cl})
 	}
 	for _, cls := range c.Before {
 		do(cls)
@@ -412,6 +431,7 @@ func loopPhis(fn *ssa.Function, path string, qual types.Qualifier) []nameEntry {
 		for ord, h := range li.headers {
 			byType := map[string][]*ssa.Phi{}
 			var order []string
+			allIdx := map[*ssa.Phi]int{}
 			for _, ins := range h.Instrs {
 				phi, ok := ins.(*ssa.Phi)
 				if !ok {
@@ -425,10 +445,11 @@ func loopPhis(fn *ssa.Function, path string, qual types.Qualifier) []nameEntry {
 					order = append(order, t)
 				}
 				byType[t] = append(byType[t], phi)
+				allIdx[phi] = len(allIdx) + 1
 			}
 			for _, t := range order {
 				for i, phi := range byType[t] {
-					out = append(out, nameEntry{Name: phi.Comment, Type: t, PhiIn: path, PhiLoop: ord + 1, PhiIdx: i + 1, PhiOf: len(byType[t])})
+					out = append(out, nameEntry{Name: phi.Comment, Type: t, PhiIn: path, PhiLoop: ord + 1, PhiIdx: i + 1, PhiOf: len(byType[t]), PhiAllIdx: allIdx[phi], PhiAllOf: len(allIdx)})
 				}
 			}
 		}
